@@ -190,3 +190,11 @@ Definition chk_mt (has_buf : bool) (r : res (@gout Q (@mt_state Q))) (o : obs_mt
       && all2 ext_eqq (g_obj g) (om_obj o) && ext_eqq (g_stop g) (om_stop o)
       && (g_iters g =? om_iters o)%nat && (mt_epochs (g_s g) =? om_epochs o)%nat
   end.
+
+(* ---------------- GroupProxNewton: real _solve against the ProxNewton mock kernels (singleton groups) ---------------- *)
+Require Import SK.Skel.GroupProxNewton.
+Definition gpn_mock (m : mock) (p : nat) (fi : bool) : @pn_kernels Q :=
+  let K := pn_mock m p fi in
+  {| pk_grad := pk_grad K; pk_subdiff := pk_subdiff K; pk_fixpoint := pk_fixpoint K; pk_lip_all := pk_lip_all K;
+     pk_sum_raw_grad := pk_sum_raw_grad K; pk_gsupp := fun w => mk_gsupp (firstn p w); pk_topk := pk_topk K;
+     pk_direction := pk_direction K; pk_linesearch := pk_linesearch K; pk_df_value := pk_df_value K; pk_pen_value := pk_pen_value K |}.
